@@ -141,6 +141,16 @@ def faceS (f : Face) : String := s!"{f.1} {boolStr f.2}"
 def veq3 (a b : V3 Rat) : Bool := a.x == b.x && a.y == b.y && a.z == b.z
 def veq2 (a b : V2 Rat) : Bool := a.x == b.x && a.y == b.y
 
+/-- the exact projection of `c` onto the line `s0 s1` is an end point (`b = 0` or `b = a`) -/
+def segBoundary3 (s0 s1 c : V3 Rat) : Bool :=
+  let v1 := s1.sub s0
+  let b := v1.dot (c.sub s0)
+  b == 0 || b == v1.dot v1
+def segBoundary2 (s0 s1 c : V2 Rat) : Bool :=
+  let v1 := s1.sub s0
+  let b := v1.dot (c.sub s0)
+  b == 0 || b == v1.dot v1
+
 def handleExact (kind : String) (ws : List String) : Option String := do
   match kind with
   | "x.mesh" =>
@@ -186,15 +196,16 @@ def handleExact (kind : String) (ws : List String) : Option String := do
   | "x.seg3" => do
       let (s0, xs) ← mk3 xs; let (s1, xs) ← mk3 xs; let (c, _) ← mk3 xs
       let q := segClosestQ3 s0 s1 c
-      some (if veq3 q s0 then s!"0 {q3s q}" else if veq3 q s1 then s!"1 {q3s q}" else "i")
+      some (if segBoundary3 s0 s1 c then "b" else if veq3 q s0 then s!"0 {q3s q}" else if veq3 q s1 then s!"1 {q3s q}" else "i")
   | "x.seg2" => do
       let (s0, xs) ← mk2 xs; let (s1, xs) ← mk2 xs; let (c, _) ← mk2 xs
       let q := segClosestQ2 s0 s1 c
-      some (if veq2 q s0 then s!"0 {q2s q}" else if veq2 q s1 then s!"1 {q2s q}" else "i")
+      some (if segBoundary2 s0 s1 c then "b" else if veq2 q s0 then s!"0 {q2s q}" else if veq2 q s1 then s!"1 {q2s q}" else "i")
   | "x.tri3" => do
       let (t0, xs) ← mk3 xs; let (t1, xs) ← mk3 xs; let (t2, xs) ← mk3 xs; let (c, _) ← mk3 xs
       let q := triClosestQ t0 t1 t2 c
-      some (if veq3 q t0 then "v0" else if veq3 q t1 then "v1" else if veq3 q t2 then "v2" else "o")
+      some (if segBoundary3 t0 t1 c || segBoundary3 t1 t2 c || segBoundary3 t2 t0 c then "b"
+            else if veq3 q t0 then "v0" else if veq3 q t1 then "v1" else if veq3 q t2 then "v2" else "o")
   | "x.tri2" => do
       let (p0, xs) ← mk2 xs; let (p1, xs) ← mk2 xs; let (p2, xs) ← mk2 xs; let (c, _) ← mk2 xs
       let pk := pickMin (tri2EdgeCand 0 p0 p1 c) [tri2EdgeCand 1 p1 p2 c, tri2EdgeCand 2 p2 p0 c]
